@@ -431,6 +431,14 @@ class World:
             out += hashlib.sha256(b"cincosim-entropy:%d:%d:%d" % (self.seed, idx, ctr)).digest()
             ctr += 1
         out = out[:n]
+        if n == 32:
+            # every 32-byte string is a legal key: in some runs the generated ones begin and end with bytes that text
+            # handling likes to drop (white space, NUL)
+            shape = (self.seed * 2654435761 >> 11) % 6
+            if shape == 0:
+                out = b"\n" + out[1:31] + b" "
+            elif shape == 1:
+                out = b"\x00" + out[1:31] + b"\x00"
         self.seq += 1
         self.draws.append((self.seq, self.step, n, out))
         self.journal.append((self.seq, self.step, "urandom", None, n, idx))
